@@ -303,6 +303,11 @@ def run(ctx, eng):
                'last step left: after every step the stream is in the state '
                'the reference machine is in (the two cells of the known '
                'finding F15 excepted, which report nothing)')
+    cm.include(ctx, eng, 'C08', {'FLOW.informational'},
+               'which header block is the final response is decided by '
+               '"informational" meaning every 1xx status: a 1xx outside a '
+               'table of known codes is taken for the response and DATA '
+               'follows it')
     cm.include(ctx, eng, 'C19', {'FSM.goaway', 'FSM.closed-row'},
                'after a connection error nothing more is reported: GOAWAY '
                'closes the connection machine from every state')
